@@ -423,9 +423,11 @@ public:
 	{
 		if (length() != b.length())
 			return false;
-		Enumerator e1(this->all()), e2(b.all());
-		for (; e1; ++e1, ++e2)
-			if (~e1 != ~e2 || *e1 != *e2) return false;
+		for (Enumerator e1(this->all()); e1; ++e1)
+		{
+			const T* p = b.find(~e1);
+			if (!p || *p != *e1) return false;
+		}
 		return true;
 	}
 
